@@ -7,6 +7,9 @@
   C10.3  id filters are wired to the right file (readReferences(referenceFile, referenceIds) / readQueries(queryFile,
          queryIds)); inside the reader filter, grouping and the id read back use one column, filter before grouping
   C10.4  row order cannot matter: positions are sorted while reading, molecules are grouped by id
+  C10.5  no single-use iterator (generator expression, map/filter/zip/itertools object, Iterator-typed parameter) is read
+         more than once: a membership test or any() advances it, so what a later row / peak sees would depend on the
+         rows / peaks looked at before - i.e. on the other molecules of the run
 Declined: order-insensitivity of tie-breaking among equal scores; equality of restricted vs full runs.
 """
 from __future__ import annotations
@@ -28,6 +31,7 @@ def run(ck):
     ck.clause("C10.2", "original query / maps are looked up by molecule id")
     ck.clause("C10.3", "id filters wired to the right file and column; filter precedes grouping")
     ck.clause("C10.4", "label rows are sorted and molecules grouped by id while reading; result rows are grouped by id after sorting by it")
+    ck.clause("C10.5", "no single-use iterator is consumed more than once (a second reader sees what other molecules left)")
     persistent_state(ck, "C10.1")
     shared_inputs(ck, "C10.1")
     module_state(ck)
@@ -37,6 +41,10 @@ def run(ck):
     n_g = groupby_inputs_sorted(ck, "C10.4", only_functions={"AlignmentResults.resolve",
                                                               "AlignmentResults.filterOutSubsequentAlignmentsForSingleQuery"})
     ck.floor("C10.4 groupby sites of the row grouping functions", n_g, 2)
+    from ..rules.iters import run_iterator_rule
+    n_b = run_iterator_rule(ck, "C10.5")
+    ck.floor("C10.5 single-use iterators bound to a local name (repository-wide)", n_b, 6)
+    ck.ok("C10.5", "repository", "src/, sv/", f"{n_b} single-use iterators bound to a name, each read once (cursor idiom next(it) excepted)")
 
 
 # ---------------------------------------------------------------------------------------------------------- C10.1
